@@ -17,9 +17,10 @@ import (
 )
 
 // One or two callers issue NON-retryable writes (APPEND log <tag>); the environment deviates:
-//   fault    : drop-before / drop-after executing the command (explorer deviation at every command), or none
-//   stall    : the reply of the tagged command is withheld for `delay` (0 = not stalled, <0 = forever)
-//   lifetime : ConnLifetime (the expiry timer lands while the command is in flight when startAt is just before it)
+//
+//	fault    : drop-before / drop-after executing the command (explorer deviation at every command), or none
+//	stall    : the reply of the tagged command is withheld for `delay` (0 = not stalled, <0 = forever)
+//	lifetime : ConnLifetime (the expiry timer lands while the command is in flight when startAt is just before it)
 type c03cfg struct {
 	name     string
 	api      string // do | multi (APPEND a, APPEND b) | txn (MULTI, APPEND, EXEC)
